@@ -19,6 +19,7 @@ import (
 
 	"github.com/inbucket/inbucket/v3/pkg/config"
 	"github.com/inbucket/inbucket/v3/pkg/extension"
+	"github.com/inbucket/inbucket/v3/pkg/extension/event"
 	"github.com/inbucket/inbucket/v3/pkg/extension/luahost"
 	"github.com/inbucket/inbucket/v3/pkg/message"
 	"github.com/inbucket/inbucket/v3/pkg/policy"
@@ -544,7 +545,14 @@ func SortWithinBoxes(dump string) string {
 
 // Exec runs one case: fields = cfg (NFields) + stream. Returns the observation fields:
 // replies, mail table, rcpt table, hdr table, store dump, status.
-func Exec(in []string) []string {
+// ExecDefer is Exec with two Go listeners installed that answer every MAIL and RCPT with an explicit defer
+// (event.ActionDefer): by the property (and theorem defer_is_policy) the session must then behave exactly as
+// with no extension at all, the domain policy decides.
+func ExecDefer(in []string) []string { return execWith(in, true) }
+
+func Exec(in []string) []string { return execWith(in, false) }
+
+func execWith(in []string, deferAll bool) []string {
 	c := ParseCfg(in[:NFields])
 	chunks, fin := ParseNet(in[NFields])
 	// parser facts for every line the session can see: a pause makes the bytes before it a line of their own
@@ -554,6 +562,14 @@ func Exec(in []string) []string {
 		return []string{"SETUPERR", vh.HS(err.Error())}
 	}
 	defer env.Close()
+	if deferAll {
+		env.Host.Events.BeforeMailFromAccepted.AddListener("verif-defer", func(event.SMTPSession) *event.SMTPResponse {
+			return &event.SMTPResponse{Action: event.ActionDefer}
+		})
+		env.Host.Events.BeforeRcptToAccepted.AddListener("verif-defer", func(event.SMTPSession) *event.SMTPResponse {
+			return &event.SMTPResponse{Action: event.ActionDefer}
+		})
+	}
 	out, err := env.SessionNet(chunks, fin)
 	status := "ok"
 	if err != nil {
